@@ -297,7 +297,7 @@ pub fn check_case(case: &Case) -> (Vec<Violation>, CaseStats) {
 }
 
 /// Oracle M: live heap at quiescence points following a context line must not grow with input.
-pub fn memory_check(args: &[String], n: usize, seed: u64, long_lines: bool, many_files: bool, wrap_shapes: bool) -> (Option<Violation>, serde_json::Value) {
+pub fn memory_check(args: &[String], n: usize, seed: u64, long_lines: bool, many_files: bool, wrap_shapes: bool, many_commits: bool) -> (Option<Violation>, serde_json::Value) {
     let config = match make_config(args) {
         Ok(c) => c,
         Err(e) => return (None, json!({"error": e})),
@@ -310,6 +310,8 @@ pub fn memory_check(args: &[String], n: usize, seed: u64, long_lines: bool, many
         let mut templates: Vec<Vec<GLine>> = Vec::new();
         let mut tok = 0usize;
         // `many_files`: one hunk per file section, i.e. the number of files grows with the input
+        // `many_commits`: additionally every file section is a commit of its own (`git log -p`)
+        let many_files = many_files || many_commits;
         let per_section = if many_files { 1 } else { 50 };
         let mut s = 0;
         let mut produced = 0;
@@ -319,7 +321,13 @@ pub fn memory_check(args: &[String], n: usize, seed: u64, long_lines: bool, many
                 // a fixed repertoire of hunks, repeated (content-keyed caches are warm early);
                 // with one file per hunk the file names stay distinct
                 let sec = if templates.len() < 100 || many_files {
-                    let x = gen::generate_section(&mut rng, &gp, gen::SectionKind::Modified, s, tok);
+                    let x = if many_commits {
+                        // kinds with file events and mode lines too: what a per-commit or per-file record would keep
+                        let kind = [gen::SectionKind::Modified, gen::SectionKind::Added, gen::SectionKind::RenamedChanged, gen::SectionKind::ModeAndChange, gen::SectionKind::Deleted][produced % 5];
+                        gen::generate_commit_unit(&mut rng, &gp, kind, s, tok, None, produced % 3 == 0)
+                    } else {
+                        gen::generate_section(&mut rng, &gp, gen::SectionKind::Modified, s, tok)
+                    };
                     if templates.len() < 100 {
                         templates.push(x.clone());
                     }
@@ -392,13 +400,13 @@ pub fn memory_check(args: &[String], n: usize, seed: u64, long_lines: bool, many
     let (h4, l4, q4) = measure(4 * n);
     let growth = h4 - h1;
     let input_growth = (l4 - l1) as isize;
-    let info = json!({"args": args, "long_lines": long_lines, "many_files": many_files, "wrap_shapes": wrap_shapes, "hunks_small": n, "hunks_large": 4 * n, "input_bytes_small": l1, "input_bytes_large": l4, "live_heap_small": h1, "live_heap_large": h4, "quiescence_points_large": q4});
+    let info = json!({"args": args, "long_lines": long_lines, "many_files": many_files, "wrap_shapes": wrap_shapes, "many_commits": many_commits, "hunks_small": n, "hunks_large": 4 * n, "input_bytes_small": l1, "input_bytes_large": l4, "live_heap_small": h1, "live_heap_large": h4, "quiescence_points_large": q4});
     if growth > input_growth / 4 {
         return (
             Some(Violation::new(
                 "M-memory",
                 "M:heap-grows-with-input",
-                format!("live heap at a quiescence point after an unchanged line grew by {} bytes when the input grew by {} bytes ({} -> {} hunks; long lines: {}; one file per hunk: {}; wrap shapes: {}; args {:?})", growth, input_growth, n, 4 * n, long_lines, many_files, wrap_shapes, args),
+                format!("live heap at a quiescence point after an unchanged line grew by {} bytes when the input grew by {} bytes ({} -> {} hunks; long lines: {}; one file per hunk: {}; wrap shapes: {}; one commit per hunk: {}; args {:?})", growth, input_growth, n, 4 * n, long_lines, many_files, wrap_shapes, many_commits, args),
             )),
             info,
         );
